@@ -5,10 +5,11 @@
 pub mod common;
 
 pub mod c10;
+pub mod c11;
 pub mod c12;
 pub mod c13;
 pub mod c14;
 pub mod c15;
 pub mod c19;
 
-pub const TABLES: &[&[(&str, fn())]] = &[c10::TABLE, c12::TABLE, c13::TABLE, c14::TABLE, c15::TABLE, c19::TABLE];
+pub const TABLES: &[&[(&str, fn())]] = &[c10::TABLE, c11::TABLE, c12::TABLE, c13::TABLE, c14::TABLE, c15::TABLE, c19::TABLE];
